@@ -102,6 +102,18 @@ def gen_cases(tier):
         for k in range(1, 8):
             h += [["get", 0, "sys"], ["reply", 0, "partial", k], ["reply", 0, "octets", 20 + k]]
         yield {"class": "partial-block", "cfgs": [cfg.describe()], "history": h}
+    # AES (CFB is a stream mode - no padding can stand in for the missing octets; DES is covered by the partial-block family):
+    # authentic replies whose scoped PDU arrives k octets short, right after a complete reply of the same shape went through the
+    # decrypt buffer (every length residue mod 16 x k = 1..15): never delivered, and the next complete one is
+    for auth, priv in combos:
+        if priv != 2:
+            continue
+        cfg = Cfg("v3", auth=auth, priv=priv)
+        for n in range(16):
+            h = []
+            for k in range(1, 16):
+                h += [["get", 0, "sys"], ["reply", 0, "octets", 40 + n], ["get", 0, "sys"], ["reply", 0, "cut", 40 + n, k], ["reply", 0, "octets", 40 + n]]
+            yield {"class": "short-reply", "cfgs": [cfg.describe()], "history": h}
     # large encrypted replies (up to the receive limit) must be decrypted and delivered intact
     for auth, priv in combos:
         cfg = Cfg("v3", auth=auth, priv=priv)
